@@ -1615,6 +1615,19 @@ func TestVerifC14(t *testing.T) {
 		skipped++
 		return nil
 	}
+	// storage faults that hit one subscriber's bookkeeping inside the admission transaction (zz_verif_c14_adm_test.go);
+	// a small section, run first so that the wall budget of the long enumeration below never cuts it off
+	{
+		adm := c14AdmissionFaults(r, thorough, try, &runs, &skipped)
+		r.AddExtra("admission_fault_variants", adm.variants)
+		r.AddExtra("admission_fault_runs", adm.errRuns)
+		r.AddExtra("admission_faults_on_a_subscribers_own_shelf", adm.onJobs)
+		r.AddExtra("admission_faults_on_the_shelf_of_a_subscriber_not_visited_last", adm.onJobsNotLast)
+		r.AddExtra("corrupt_stored_entry_runs", adm.corrupt)
+		r.AddExtra("save_refused_for_one_subscriber_runs", adm.foreign)
+		r.AddExtra("late_subscriber_runs", adm.late)
+		r.AddExtra("admission_answers_disagreeing_with_store", adm.inconsistent)
+	}
 	onlyAdm := os.Getenv("C14_ONLY") == "adm" // development aid: run only the admission-fault section
 	if onlyAdm {
 		variants = nil
@@ -1898,18 +1911,6 @@ func TestVerifC14(t *testing.T) {
 				}
 			}
 		}
-	}
-	// storage faults that hit one subscriber's bookkeeping inside the admission transaction (zz_verif_c14_adm_test.go)
-	{
-		adm := c14AdmissionFaults(r, thorough, try, &runs, &skipped)
-		r.AddExtra("admission_fault_variants", adm.variants)
-		r.AddExtra("admission_fault_runs", adm.errRuns)
-		r.AddExtra("admission_faults_on_a_subscribers_own_shelf", adm.onJobs)
-		r.AddExtra("admission_faults_on_the_shelf_of_a_subscriber_not_visited_last", adm.onJobsNotLast)
-		r.AddExtra("corrupt_stored_entry_runs", adm.corrupt)
-		r.AddExtra("save_refused_for_one_subscriber_runs", adm.foreign)
-		r.AddExtra("late_subscriber_runs", adm.late)
-		r.AddExtra("admission_answers_disagreeing_with_store", adm.inconsistent)
 	}
 	r.AddExtra("cases_skipped", skipped)
 	r.AddExtra("restarts_from_seeded_jobs", seeded)
